@@ -115,6 +115,7 @@ func eqCoverage(c *core.Ctx, rule string) {
 					}
 				}
 			}
+			eqTruthTable(c, rule, rel, tn, nt, eq, need)
 			for i := 0; i < st.NumFields(); i++ {
 				fv := st.Field(i)
 				if !need[fv] {
@@ -547,4 +548,84 @@ func derivedFrom(p *core.Prog, v *types.Var) *types.Var {
 		return nil
 	}
 	return src
+}
+
+// eqTruthTable: for policy types whose behaviour-relevant fields are all scalars, the equality method must be exactly
+// `same dynamic type ∧ every such field equal` — decided by evaluating its extracted path conditions on all valuations.
+func eqTruthTable(c *core.Ctx, rule, rel, tn string, nt *types.Named, eq *core.Fn, need map[*types.Var]bool) {
+	var fields []*types.Var
+	st := nt.Underlying().(*types.Struct)
+	for i := 0; i < st.NumFields(); i++ {
+		fv := st.Field(i)
+		if !need[fv] {
+			continue
+		}
+		b, ok := fv.Type().Underlying().(*types.Basic)
+		if !ok || b.Info()&(types.IsInteger|types.IsBoolean) == 0 {
+			return // non-scalar field: only the coverage rule applies
+		}
+		fields = append(fields, fv)
+	}
+	recv, par := core.RecvObj(eq), core.ParamObj(eq, 0)
+	if recv == nil || par == nil {
+		return
+	}
+	self := types.NewPointer(nt).String()
+	construct := rel + "." + tn + "." + eq.Decl.Name.Name + " is `same type ∧ all fields equal`"
+	rows, bad := 0, 0
+	first := ""
+	n := len(fields)
+	for mask := 0; mask < 1<<(2*n); mask++ {
+		for _, same := range []bool{true, false} {
+			env := core.NewEnv()
+			env.Prog = c.P
+			env.ObjFields[recv] = map[*types.Var]core.Val{}
+			env.ObjFields[par] = map[*types.Var]core.Val{}
+			allEq := true
+			for i, fv := range fields {
+				a, b := int64(mask>>(2*i)&1), int64(mask>>(2*i+1)&1)
+				if bt := fv.Type().Underlying().(*types.Basic); bt.Info()&types.IsBoolean != 0 {
+					env.ObjFields[recv][fv], env.ObjFields[par][fv] = core.BoolVal(a == 1), core.BoolVal(b == 1)
+				} else {
+					env.ObjFields[recv][fv], env.ObjFields[par][fv] = core.IntVal(a+1), core.IntVal(b+1)
+				}
+				if a != b {
+					allEq = false
+				}
+			}
+			if same {
+				env.DynType[par] = self
+			} else {
+				env.DynType[par] = "<another type>"
+			}
+			// pointer-typed parameter of the same named type (no interface): always the same type
+			if _, isIface := par.Type().Underlying().(*types.Interface); !isIface {
+				if !same {
+					continue
+				}
+			}
+			rows++
+			ret, err := core.Outcome(eq, env)
+			if err != nil {
+				c.Undecided(rule, construct, eq.Decl.Pos(), "equality method is outside the loop-free subset or uses atoms outside the table: "+err.Error())
+				return
+			}
+			v, ok := core.Eval(eq, ret.Results[0], env)
+			if !ok {
+				c.Undecided(rule, construct, ret.Pos(), "result of the equality method is not evaluable over its fields")
+				return
+			}
+			want := same && allEq
+			if v.B != want {
+				bad++
+				if first == "" {
+					first = fmt.Sprintf("same type=%v, fields pairwise equal=%v: Equal returns %v", same, allEq, v.B)
+				}
+			}
+		}
+	}
+	if rows == 0 {
+		return
+	}
+	c.Check(bad == 0, rule, construct, eq.Decl.Pos(), fmt.Sprintf("%d of %d valuations disagree (first: %s): two policies that behave differently compare equal (a replacement is skipped) or equal ones compare different", bad, rows, first))
 }
